@@ -106,7 +106,7 @@ class HCreateSolution(Handler):
                     # the other face of the absolute residual test (KF31): a consistent over-determined request whose
                     # rows have large magnitudes (hundreds of grams) misses the 1e-6 absolute residual by rounding
                     mech = f'C05:overdetermined_consistent_request_refused:{skind}:ValueError'
-                M.violate(['C05'], 'SOLN', mech,
+                M.violate(['C05', 'C03'], 'SOLN', mech,
                           {'solutes': [s.name for s in solutes], 'solvent': H1._short(solvent), 'kwargs': kw,
                            'exc': repr(exc)[:300], 'tag': expect.get('tag')})
             elif not H1.is_value_error(exc):
@@ -303,7 +303,7 @@ class HCreateSolutionFrom(Handler):
             et = type(exc).__name__
             if expect and expect.get('must') == 'accept':
                 mech = f'C12:feasible_request_refused:q={qb}:{skind}:{et}'
-                M.violate(['C12'], 'FROM', mech,
+                M.violate(['C12', 'C03'], 'FROM', mech,
                           {'source': F.snap_contents(source), 'solute': solute.name, 'concentration': conc,
                            'solvent': H1._short(solvent), 'quantity': quantity, 'exc': repr(exc)[:300],
                            'tag': expect.get('tag')})
